@@ -97,6 +97,7 @@ func newWsBackend() *wsBackend {
 		b.conns[label] = c
 		b.paths[label] = [2]string{r.URL.EscapedPath(), r.URL.RawQuery}
 		b.hdrs[label] = r.Header.Clone()
+		b.hdrs[label].Set("X-Seen-Host", r.Host) // (the Host of the handshake, kept with the other header fields)
 		b.wmu[label] = &sync.Mutex{}
 		wmu := b.wmu[label]
 		b.mu.Unlock()
@@ -379,12 +380,18 @@ func (s *shimClient) abandonedPoll(sid string, after time.Duration) {
 }
 
 func newShim(backendHost string, inject bool) (*shimClient, context.CancelFunc) {
+	return newShimOpt(backendHost, inject, false)
+}
+
+// newShimOpt: rewriteHost is the shim's option --rewrite-websocket-host (the handshake carries the Host of the
+// client's request instead of the backend's address).
+func newShimOpt(backendHost string, inject, rewriteHost bool) (*shimClient, context.CancelFunc) {
 	ctx, cancel := context.WithCancel(context.Background())
 	wrapped := http.HandlerFunc(func(w http.ResponseWriter, r *http.Request) {
 		w.Header().Set("X-Wrapped", "1")
 		w.Write([]byte("wrapped:" + r.URL.RequestURI()))
 	})
-	h, _ := websockets.Proxy(ctx, wrapped, backendHost, "/shimq", false, inject,
+	h, _ := websockets.Proxy(ctx, wrapped, backendHost, "/shimq", rewriteHost, inject,
 		func(h http.Handler, _ *metrics.MetricHandler) http.Handler { return h }, nil)
 	return &shimClient{h: h, prefix: "/shimq", inject: inject}, cancel
 }
@@ -1512,7 +1519,13 @@ func wsURLDriver(a *Args) {
 	// configuration classes of --host: "host:port" (every class, several times) and a host without a port, which
 	// means the scheme's default port (every class once)
 	backendName := be.host()
-	for pass, hostForm := range []string{"host:port", "host"} {
+	for pass, hostForm := range []string{"host:port", "host", "host:port+rewrite-websocket-host"} {
+		if pass == 2 {
+			var cancel3 func()
+			shim, cancel3 = newShimOpt(be.host(), false, true)
+			defer cancel3()
+			backendName = be.host()
+		}
 		if pass == 1 {
 			var cancel2 func()
 			shim, cancel2 = newShim("127.0.0.1", false)
@@ -1524,7 +1537,7 @@ func wsURLDriver(a *Args) {
 			if strings.HasPrefix(class, "rsv|") {
 				reps = (per + 4) / 5
 			}
-			if pass == 1 {
+			if pass >= 1 {
 				reps = 1
 				if strings.HasPrefix(class, "rsv|") && n%3 != 0 {
 					n++
@@ -1549,6 +1562,7 @@ func wsURLDriver(a *Args) {
 					wantPath, wantQuery = u.EscapedPath(), u.RawQuery
 				}
 				sawPath, sawQuery := "", ""
+				sawHost := "" // Host of the handshake, where the connection could be identified by its label
 				if st == 200 {
 					var r struct {
 						ID string `json:"id"`
@@ -1559,6 +1573,9 @@ func wsURLDriver(a *Args) {
 					for l, p := range be.paths {
 						if strings.Contains(p[1], "s="+label) || l == label {
 							sawPath, sawQuery, found = p[0], p[1], true
+							if h := be.hdrs[l]; h != nil {
+								sawHost = h.Get("X-Seen-Host")
+							}
 						}
 					}
 					be.mu.Unlock()
@@ -1584,7 +1601,7 @@ func wsURLDriver(a *Args) {
 					sig += ":host-without-port"
 				}
 				hx.Emit("OpenCase", "class", class, "sig", sig, "url", headOf([]byte(body), 120), "status", st, "dialed", d, "backend", backendName,
-					"want_path", wantPath, "want_query", wantQuery, "saw_path", sawPath, "saw_query", sawQuery)
+					"want_path", wantPath, "want_query", wantQuery, "saw_path", sawPath, "saw_query", sawQuery, "saw_host", sawHost, "req_host", "svc.example")
 				res.Case(sig, map[string]interface{}{"class": class, "example": headOf([]byte(body), 100), "configured_host": hostForm})
 			}
 		}
@@ -1600,7 +1617,7 @@ func wsURLDriver(a *Args) {
 			st = 599
 		}
 		hx.Emit("OpenCase", "class", "outside-prefix", "sig", "url:outside-prefix", "url", p, "status", st, "dialed", []string{}, "backend", be.host(),
-			"want_path", "", "want_query", "", "saw_path", "", "saw_query", "")
+			"want_path", "", "want_query", "", "saw_path", "", "saw_query", "", "saw_host", "", "req_host", "svc.example")
 	}
 }
 
